@@ -19,7 +19,40 @@ func timeCounterFn(w *World) *ssa.Function {
 			return f
 		}
 	}
-	return nil
+	// initialised with a named function (var TimeCounterFunc = timeCounter): read the initialiser's store
+	var out *ssa.Function
+	for _, f := range w.ModuleFuncs(OtpPath) {
+		if !isInit(f) {
+			continue
+		}
+		EachInstr(f, func(in ssa.Instruction) {
+			st, ok := in.(*ssa.Store)
+			if !ok {
+				return
+			}
+			g, ok := st.Addr.(*ssa.Global)
+			if !ok || g.Name() != "TimeCounterFunc" {
+				return
+			}
+			v := st.Val
+			for {
+				if ct, isCT := v.(*ssa.ChangeType); isCT {
+					v = ct.X
+					continue
+				}
+				break
+			}
+			switch x := v.(type) {
+			case *ssa.Function:
+				out = x
+			case *ssa.MakeClosure:
+				if len(x.Bindings) == 0 {
+					out, _ = x.Fn.(*ssa.Function)
+				}
+			}
+		})
+	}
+	return out
 }
 
 func timeParamIndex(f *ssa.Function) int {
